@@ -101,6 +101,27 @@ pub fn run_c18(args: &Args) -> Report {
             if !ok {
                 rep.violation("oracle", &format!("C18: tag store panics for names {:?} contents {:?} line {:?}: {}", names, contents, target, last_panic.lock().unwrap()), "fn: tags\n");
             }
+            // the same over a tiny alphabet, so that stored names overlap each other inside the line
+            // (`ab` / `bc` in `abc`, `__V` / `V__` in `__V__`): leftmost wins, nothing may panic
+            let small = |rng: &mut Rng, max: usize| -> String {
+                let n = 1 + rng.below(max);
+                (0..n).map(|_| *rng.pick(&["a", "b", "_", "V", "é"])).collect::<Vec<_>>().concat()
+            };
+            let names: Vec<String> = (0..3).map(|_| small(&mut rng, 3)).collect();
+            let target = small(&mut rng, 9);
+            let (n2, t2) = (names.clone(), target.clone());
+            let ok = guarded(move || {
+                let mut t = TagState::new();
+                for k in 0..3 {
+                    let _ = t.create(&n2[k]);
+                    let _ = t.try_store(&format!("<{k}>"));
+                }
+                let _ = t.inject_tags(&t2, "\n");
+                let _ = t.inject_tags(&t2, "\n");
+            });
+            if !ok {
+                rep.violation("oracle", &format!("C18: tag injection panics for stored names {:?} on line {:?}: {}", names, target, last_panic.lock().unwrap()), "fn: tags\n");
+            }
             let c3 = contents[0].clone();
             if !guarded(move || {
                 let _ = c3.replace_line_ending("\r\n", false);
@@ -278,7 +299,23 @@ pub fn run_c18(args: &Args) -> Report {
         materialize(&p, &pdir);
         let mode = *rng.pick(&["build", "needed", "verify", "clean"]);
         let threads = *rng.pick(&[0usize, 0, 1, 2, 3, 4, 8, 16]);
-        let cfg = RunCfg { mode, trailing: rng.chance(1, 2), recursive: rng.chance(2, 3), threads, inputs: vec![".".to_string()] };
+        // inputs: the base directory, also repeated, spelled differently, or together with one of its sub-directories
+        let inputs: Vec<String> = match rng.below(6) {
+            0 | 1 => vec![".".to_string()],
+            2 => vec![".".to_string(), ".".to_string()],
+            3 => vec!["./".to_string(), ".".to_string()],
+            4 if !p.dirs.is_empty() => {
+                let d = rng.pick(&p.dirs).clone();
+                vec![".".to_string(), d]
+            }
+            _ if !p.dirs.is_empty() => {
+                let d = rng.pick(&p.dirs).clone();
+                vec![d.clone(), format!("{d}/../{d}"), format!("./{d}")]
+            }
+            _ => vec![".".to_string()],
+        };
+        kind.push_str(&format!("inputs{},", inputs.len()));
+        let cfg = RunCfg { mode, trailing: rng.chance(1, 2), recursive: rng.chance(2, 3), threads, inputs };
         let (before, _) = snapshot(&pdir);
         // keep the replay small: huge lines are described, not stored
         let body = if kind.contains("huge-line") { format!("# {} with a 1 MB line inserted; {}\n", cfg.describe(), kind) } else { replay_body(&before, &cfg, &p.cmds, &format!("# mutations: {kind}\n")) };
